@@ -578,7 +578,8 @@ class domain(config_domain):
             # stable; thus empty entries == ~arch
             def f(r, v):
                 if not v:
-                    return r, self.unstable_arch
+                    # a sequence of keywords like every other entry's
+                    return r, (self.unstable_arch,)
                 return r, v
 
             data = collapsed_restrict_to_data(
